@@ -13,7 +13,7 @@ fn main() {
     let thorough = args.get(2).map(|s| s.as_str()) == Some("thorough");
     let verbose = args.iter().any(|a| a == "-v");
     let props: Vec<&str> = match which {
-        "all" => vec!["C01", "C12", "C13", "C14"],
+        "all" => vec!["C01", "C04", "C09", "C12", "C13", "C14"],
         p => vec![p],
     };
     let budget = if thorough {
